@@ -265,7 +265,7 @@ Proof.
     rewrite (EV (enc32 false (zlen (csprops c)) ++ PT)) in A. assert (Y : s2 = enc32 false (zlen (csprops c)) ++ PT) by congruence. subst s2.
     rewrite (E32 PT) in R. assert (Y : v = zlen (csprops c) /\ s3 = PT) by (split; congruence). destruct Y as (-> & ->). rewrite Hlen. exact PN. }
   destruct (cs_read_full_source rf rp fo po k _ m h Hb NB NBP) as (f0 & F). exists f0. intros f Hf.
-  destruct (F f Hf) as (st & fin & C & _ & Out). exists st, fin. split; [exact C|].
+  destruct (F f Hf) as (st & fin & C & _ & Out & _). exists st, fin. split; [exact C|].
   destruct Out as [(E & Ho & (s1 & va & s2 & v & s3 & s' & A1 & A2 & A3 & A4 & A5 & A6) & hnew & Hc & _ & D)|(Hng & Ho & Hj)]; [|right; split; [exact Hng|split; [exact Ho|exact Hj]]].
   left. split; [exact E|]. split; [|split; [exact Ho|]].
   - rewrite E0 in A1. assert (Y : s1 = enc_va false (csvals c) ++ enc32 false (zlen (csprops c)) ++ PT) by congruence. subst s1.
